@@ -214,10 +214,12 @@ PROPS = {
             (CARD, "(total * 9) % 10", "(total * 7) % 10", "check digit multiplier 9 -> 7"),
             (CARD, "digits[::-1]", "digits", "digits not reversed"),
             (CARD, "card_number[0:-1]) != card_number[-1]", "card_number[0:-1]) != card_number[0]", "validate compares with first digit"),
+            (CARD, "if digit.isdigit()]", "if digit.isdigit() and digit != '0']", "zero digits dropped from a text with separators"),
+            (CARD, "if digit.isdigit()]", "if digit.isdigit() or digit == 'O']", "letter O let through the digit filter"),
         ],
         'level_note': "Trusted: pyvc, z3/cvc5, the library models listed in evidence. The error-detection clauses (single substitution, adjacent transposition other than 0/9) are lemmas over the Luhn spec the code is proved equal to, proved by induction over the digit count (base and step obligations in contracts/lemmas.py).",
         'assumptions': ["int(c) on a one-character ASCII digit string is the digit value; str(d) for 0<=d<=9 is chr(48+d)",
-                        "text with separators (any printable ASCII between the digits): the comprehension filter is modelled by an uninterpreted strictly increasing selection function (the digits of the text, in order); that it selects EVERY digit is the semantics of the comprehension, not re-proved; non-ASCII characters for which str.isdigit() is true but int() fails are outside the property (digit strings)",
+                        "text with separators (any printable ASCII between the digits): the comprehension filter is modelled by an uninterpreted strictly increasing selection function (the digits of the text, in order); the model states the semantics of a filtered comprehension as: selected positions satisfy the filter, and every position that satisfies the filter is the image of its rank (skolem function RANK); the unit proves from these that the selected positions are exactly the digit positions of the text; non-ASCII characters for which str.isdigit() is true but int() fails are outside the property (digit strings)",
                         "SIGMA (finite sum) is characterised by its unfolding equations; induction over the length is written out as base/step obligations in contracts/lemmas.py"],
     },
     'C16': {
